@@ -502,7 +502,7 @@ class Syntax(JupyterMixin):
             yield from console.render(text, options=options.update(width=code_width))
             return
 
-        lines = text.split("\n")
+        lines = text.split("\n", allow_blank=bool(self.line_range))
         if self.line_range:
             lines = lines[line_offset:end_line]
 
